@@ -10,6 +10,8 @@
  POSTORIENT no constructor returns Ok after a flip repair driver succeeded (per-insertion or finalize
           repair) without the geometric orientation of the cells having been re-validated — for every
           topology guarantee (the rule and its gates are those of C08 POSTORIENT; found F15).
+ ELEMKEEP  (vertex-set clause, structural part) in the batch de-duplication family every input vertex taken out of
+          the input is handed on by value or dropped behind a duplicate verdict - no path loses one silently.
 Not decided: that the verifiers are themselves right (C04/C05), ball/convexity, the vertex-set and
 statistics clauses; Pseudomanifold gets no Level-3 gate at completion by design (noted)."""
 import flow
@@ -99,6 +101,9 @@ def run(ctx):
         prog = ctx.prog(cfg)
         c08._postorient(ctx, cfg, prog, gate.Leaves(prog), constructors=True)
         idkeep.check(ctx, cfg, prog, ctx.mod(cfg), 'IDENT', lambda o: o.rsplit('::', 1)[-1] == 'insert_transactional', 1)
+        import elemkeep
+        ctx.rule('ELEMKEEP', 'batch de-duplication hands every input vertex on or drops it behind a duplicate verdict')
+        elemkeep.check(ctx, cfg, prog, ctx.mod(cfg), 'ELEMKEEP')
     ctx.note('TopologyGuarantee::Pseudomanifold has no Level-3 gate at completion (relies on ValidationPolicy::DebugOnly, '
              'i.e. nothing in release): observation, not a rule')
     return ctx.finish(EXPLANATION)
